@@ -31,7 +31,8 @@ REQUIRED = ['quota_textbook_hare', 'quota_textbook_hagenbach_bischoff', 'quota_t
             'qd_whole_quotas', 'wholeSel_get', 'qd_no_overaward', 'qd_policy_error', 'qd_policy_ignore',
             'qd_policy_subtract_total', 'qd_subtract_step', 'qd_subtract_empty',
             'lr_whole_then_remainders', 'lr_floor_plus_01', 'lr_extra_only_eligible', 'lr_largest_remainders',
-            'lr_tie_shape', 'lr_total', 'lr_total_exact', 'lr_total_hare', 'lr_total_hagenbach_bischoff',
+            'lr_tie_shape', 'lr_tie_seats', 'lr_total', 'lr_short', 'lr_no_remainder_seats', 'lr_policy_error', 'lr_policy_ignore',
+            'lr_policy_subtract', 'lr_total_exact', 'lr_total_hare', 'lr_total_hagenbach_bischoff',
             'lr_total_imperiali', 'hare_quota_rule', 'lr_plain_of_quota_gt', 'lr_plain_droop',
             'qd_fuel_suffices', 'lr_fuel_suffices',
             'qd_cap_partial', 'lr_cap_partial', 'qd_cap_witness', 'qd_cap_negative_witness', 'lr_cap_witness',
@@ -560,17 +561,34 @@ def _quota_cases(rng, count):
 
 
 def _exhaustive(tier):
-    """small scope: every vote vector over {0..3} for up to 3 parties, n up to 4, all exact quotas and policies"""
+    """small scopes, enumerated completely:
+    (i)  every vote vector over {0..3} for up to 3 parties x n <= 4 x 4 quotas (+ two constants) x 3 policies x 2 ops
+         x accept_equal;
+    (ii) every two-party vector over {0..5} x n <= 4 x previous gains x caps x 3 quotas x 3 policies x 2 ops"""
     for m in (1, 2, 3):
         for vals in itertools.product([0, 1, 2, 3], repeat=m):
             if sum(vals) == 0:
                 continue
             for n in (1, 2, 3, 4):
-                for qn in ('hare', 'droop', 'hagenbach_bischoff', 'imperiali'):
+                for qn in ('hare', 'droop', 'hagenbach_bischoff', 'imperiali', 'const:1', 'const:3/2'):
                     for pol in POLICIES:
                         for op in ('qd', 'lr'):
                             for ae in (True, False):
                                 yield _mk(op, list(vals), n, qn, ae, pol, tags=['exhaustive'])
+    prevs = [{}, {0: 1}, {1: 2}, {0: 1, OTHER: 1}]
+    caps = [{}, {0: 0}, {0: 1}, {0: 2}, {1: 1}, {0: 3, 1: 1}]
+    for vals in itertools.product([0, 1, 2, 3, 4, 5], repeat=2):
+        if sum(vals) == 0:
+            continue
+        for n in (1, 2, 3, 4):
+            for qn in ('hare', 'droop', 'imperiali'):
+                for pol in POLICIES:
+                    for op in ('qd', 'lr'):
+                        for prev in prevs:
+                            for mx in caps:
+                                if not prev and not mx:
+                                    continue
+                                yield _mk(op, list(vals), n, qn, True, pol, prev, mx, tags=['exhaustive_caps'])
 
 
 def _tag(c):
@@ -646,8 +664,9 @@ def generate(rng, tier):
 RULE = ('qd / lr: 1-6 parties, votes from tie-forcing small sets, 0..1000, 10^16..3*10^30 and Fractions, zero-vote parties; '
         'n 1..12; the seven named quotas and constant quotas; accept_equal both ways; the three over-award policies; '
         'prev_gains (incl. a party without votes) and max_seats in 35 % of the cases each; directed cases for every '
-        'required counter; thorough tier adds every vote vector over {0..3}^(<=3) x n<=4 x 4 quotas x 3 policies x 2 ops '
-        'x accept_equal.  quota: totals 0..200, exact halves, 10^16..10^30, Fractions; n 1..12.  Non-trivial = at least '
+        'required counter; thorough tier adds two completely enumerated small scopes: every vote vector over {0..3}^(<=3) x '
+        'n<=4 x 6 quotas x 3 policies x 2 ops x accept_equal, and every two-party vector over {0..5}^2 x n<=4 x 4 prev_gains '
+        'x 6 max_seats x 3 quotas x 3 policies x 2 ops.  quota: totals 0..200, exact halves, 10^16..10^30, Fractions; n 1..12.  Non-trivial = at least '
         'two parties and a non-error result (or any quota evaluation); distinct by canonical request.')
 NOT_VERIFIED = ['dict insertion order is the protocol order (CPython dict semantics)',
                 'a Tie whose members are Tie objects is not representable in the model (answers Model:NestedTie; never observed)',
@@ -659,5 +678,17 @@ UNPROVED = ['VL.C02.qd_cap (caps respected by QuotaDistributor for ALL inputs: f
             'VL.C02.qd_policy_honoured (policies honoured also when a party\'s whole quotas exceed the house: false, see qd_house_witness / finding C02-d)']
 TECHNIQUE = ('Lean 4 proofs about an executable model of QuotaDistributor / LargestRemainder (unbounded) + translated quota '
              'functions + differential correspondence with votelib')
-LEVEL_TEXT = ''
-LEVEL_NOTE = ''
+LEVEL_TEXT = ('QuotaDistributor.evaluate (incl. the cap-overshoot recursion and _subtract_overaward) and LargestRemainder.evaluate '
+              'are modelled line for line in Lean; the quota functions are regenerated from quota.py on every run. Proved for ALL '
+              'inputs (no size bound): every named quota equals its textbook closed form; without a binding cap the whole-quota '
+              'awards are max(floor(v/q)-prev,0) with the accept_equal edge; error / ignore / subtract are honoured exactly '
+              '(subtract: every pass withdraws one seat from the holder(s) of the smallest margin, ties as Tie, final total n); '
+              'LargestRemainder = whole quotas + one seat per place of get_n_best over the exact remainders of the parties below '
+              'their cap (at most one per party, larger remainders first, ties at the cut exactly the level set), total = n when '
+              'the open seats do not outnumber the eligible parties - proved outright for Hare, Hagenbach-Bischoff, Imperiali; '
+              'Droop never over-awards; the Hare quota rule floor(share) <= seats <= ceil(share). Cap theorems are _partial (no '
+              'cap binds on the whole quotas); the failing shapes are proved as witnesses and listed as open findings.')
+LEVEL_NOTE = ('Trusted: Lean kernel + propext/Classical.choice/Quot.sound; translate.py + Py.lean primitives for the quota functions; '
+              'the hand-written model is tied to /repo by the differential correspondence (bounded by the generator: 1-6 parties, '
+              'n<=12, int/Fraction votes up to 3*10^30, prev_gains/max_seats) and the independent Fraction oracle. Open findings '
+              'C02-a/b/d (cap overshoot branch) and C02-e (constant quota + error) are reported as KNOWN-FINDING.')
